@@ -69,6 +69,11 @@ func (m *MessageCopyFromGenerator) GenerateFields(g *j.Group) {
 	}
 
 	for _, f := range m.Fields {
+		// The placeholder of a message without fields has no counterpart in the object
+		if f.IsPlaceholder {
+			continue
+		}
+
 		g.Add(NewFieldCopyFromGenerator(f, m.i).Generate())
 	}
 }
@@ -318,19 +323,27 @@ func (f *FieldCopyFromGenerator) genObjectListOrMap() *j.Statement {
 			g.Var().Id("t").Id(f.i.WithType(f.GoElemType))
 
 			g.If(j.Id("!v.Null && !v.Unknown")).BlockFunc(func(g *j.Group) {
-				// tf := v
-				g.Id("tf").Op(":=").Id("v")
+				// A message without fields has nothing to read, tf and obj would be unused
+				if !m.IsEmpty {
+					// tf := v
+					g.Id("tf").Op(":=").Id("v")
+				}
 
 				if f.IsNullable {
 					// t = &Nested{}
 					g.Id("t").Op("=&").Id(f.i.WithType(f.GoElemTypeIndirect)).Values()
-					// obj := t - obj is just an alias to reuse field generator code
-					g.Id("obj").Op(":=").Id("t")
-				} else {
+					if !m.IsEmpty {
+						// obj := t - obj is just an alias to reuse field generator code
+						g.Id("obj").Op(":=").Id("t")
+					}
+				} else if !m.IsEmpty {
 					// obj := &t
 					g.Id("obj").Op(":=&").Id("t")
 				}
-				m.GenerateFields(g)
+
+				if !m.IsEmpty {
+					m.GenerateFields(g)
+				}
 			})
 
 			// obj.List[k] = t
